@@ -49,6 +49,7 @@ type Emitted struct {
 	SigOK bool   `json:"sig_ok"` // signature bytes = BLS signature of the key over hash||round||index
 	Round uint64 `json:"round"`
 	Index uint32 `json:"index"`
+	Life  int    `json:"life,omitempty"` // life runs: which process lifetime sent it (1 = before the first restart)
 }
 
 // DetectRun: an honest observer (key Observer) receives, in order, votes signed
@@ -138,6 +139,13 @@ func (c *collector) waitFor(wantSent, wantEvs int64) {
 }
 
 func newVoter(w *world, k int, best common.Hash) (*ucon.Voter, *collector) {
+	b := best
+	return newVoterOn(w, k, youdb.NewMemDatabase(), &b)
+}
+
+// newVoterOn builds a Voter over the given (possibly already used) database;
+// *best is what getMaxPriorityFn answers at the moment it is asked.
+func newVoterOn(w *world, k int, db youdb.Database, best *common.Hash) (*ucon.Voter, *collector) {
 	mux := new(event.TypeMux)
 	col := &collector{}
 	sub := mux.Subscribe(ucon.SendMessageEvent{}, staking.Evidence{})
@@ -160,7 +168,7 @@ func newVoter(w *world, k int, best common.Hash) (*ucon.Voter, *collector) {
 		return true, &ucon.StepView{SeedValue: common.Hash{1}, SortitionProof: []byte{1}, Priority: common.Hash{1},
 			SubUsers: 1, Threshold: 1000, ValidatorType: params.KindChamber}
 	}
-	maxPrio := func(round *big.Int, roundIndex uint32) (common.Hash, common.Hash, bool) { return common.Hash{1}, best, true }
+	maxPrio := func(round *big.Int, roundIndex uint32) (common.Hash, common.Hash, bool) { return common.Hash{1}, *best, true }
 	blk := types.NewBlockWithHeader(&types.Header{Number: big.NewInt(1), Subsidy: new(big.Int), GasRewards: new(big.Int)})
 	inCache := func(h common.Hash, p common.Hash) *types.Block { return blk }
 	verify := func(pk *ecdsa.PublicKey, d *ucon.SortitionData, lb params.LookBackType) error { return nil }
@@ -169,7 +177,7 @@ func newVoter(w *world, k int, best common.Hash) (*ucon.Voter, *collector) {
 	}
 	count := func(round *big.Int, kind params.ValidatorKind, lb params.LookBackType) uint64 { return 10 }
 	pm := &lbm{w}
-	v := ucon.NewVoter(youdb.NewMemDatabase(), key(k).ec, key(k).blsSk, mux, verify, isVal, maxPrio, inCache, stake, count, pm)
+	v := ucon.NewVoter(db, key(k).ec, key(k).blsSk, mux, verify, isVal, maxPrio, inCache, stake, count, pm)
 	v.SetLookBackMgr(pm)
 	return v, col
 }
